@@ -91,9 +91,12 @@ def observe(w, hist):
     from zope.interface import Interface, implementedBy, providedBy
     idx = {id(x): k for k, x in enumerate(w.I)}
     for oi, ob in enumerate(w.obs):
-        for C in type(ob).__mro__[:-1]:
-            ci = w.K.index(C)
-            exp = w.expected_super(ci, oi)
+        for C in type(ob).__mro__:
+            if C is object:
+                ci, exp = -1, set()         # super(object, ob): no class is left after the last one of the MRO
+            else:
+                ci = w.K.index(C)
+                exp = w.expected_super(ci, oi)
             s = super(C, ob)
             ctx = 'shape=%s %s: super(K%d, K%d())' % (w.shape, hist, ci, oi)
             flat = list(providedBy(s).flattened())
